@@ -19,3 +19,6 @@ CHECKS["C14"] = check_hist.run
 
 import check_conc
 CHECKS["C15"] = check_conc.run
+
+import check_export
+CHECKS["C18"] = check_export.run
